@@ -54,7 +54,7 @@ KEYS = {
     "ExecForeignKeyspace": ("exec-foreign-keyspace", "EXECUTE/BATCH sent on a connection with an id prepared in another keyspace"),
     "ExecWrongStatement": ("exec-wrong-statement", "EXECUTE/BATCH sent with the id of a different statement"),
     "ArityNotChecked": ("arity-not-checked", "a wrong number of bound values was sent instead of being reported"),
-    "UnpreparedNotReprepared": ("unprepared-not-reprepared", "after UNPREPARED the same stale id was sent again"),
+    "UnpreparedNotReprepared": ("unprepared-not-reprepared", "an id the node rejected twice as UNPREPARED was sent a third time: the driver does not prepare again"),
     "UnpreparedNotRecovered": ("unprepared-not-recovered", "UNPREPARED was returned to the caller instead of preparing again"),
     "ResultMetaMismatch": ("result-meta-mismatch", "rows were decoded with result metadata that does not belong to the executed id"),
     "CapExceeded": ("cap-exceeded", "the prepared-statement cache exceeded its configured size"),
